@@ -155,6 +155,8 @@ CONFIGS = {
                                        ctrl=dict(cmd_buffer_depth=2, read_time=4, write_time=4)), True, 44, 64, "qt"),
     "fair_sdr_2b_2p_d1": (dict(phy="sdr_fast", bankbits=1, nports=2, timing=T_MIN,
                                ctrl=dict(cmd_buffer_depth=1, read_time=4, write_time=4)), True, 40, 60, "qt"),
+    "fair_ddr3_2b_2p_d2_tfaw": (dict(phy="ddr3_fast", bankbits=1, nports=2, timing=T_FULL,
+                                     ctrl=dict(cmd_buffer_depth=2, read_time=4, write_time=4)), True, 40, 60, "qt"),
     "adversarial_sdr_2b_2p_d2": (dict(phy="sdr_fast", bankbits=1, nports=2, timing=T_MIN,
                                       ctrl=dict(cmd_buffer_depth=2, read_time=4, write_time=4)), False, 30, 40, "qt"),
     "fair_ddr3_2b_2p_d2_rt8": (dict(phy="ddr3_fast", bankbits=1, nports=2, timing=T_MIN,
